@@ -70,3 +70,16 @@ for n in (0, 1):
                      tier='thorough', 
                      functions=['carquet_crc32', 'carquet_crc32_update'],
                      est_s=120, timeout=400, note='undecided: SAT and z3 time out at 200 s already for total length 1 (three dependent calls with a symbolic split)', **dict(B,  defines=B['defines'] + ['CQV_LEN=%d' % n, 'CQV_OFF=3'])))
+
+# wip=False only for jobs seen `ok` on the unchanged tree AND seen failing on a deliberately broken
+# copy of the sources (see the report).  The slide/block8 lemmas do not depend on the sources once
+# L-lin/L-rec/L-byte are replaced by their contracts; they were checked for non-vacuity by breaking
+# their statement instead (-DCQV_BREAK_H: slide3, slide4 fail; -DCQV_BREAK_CHAIN: block8 no longer closes).
+VALIDATED = set(['c14_crc32_tables', 'c14_crc32_lemma_byte', 'c14_crc32_lemma_rec', 'c14_crc32_lemma_block8',
+                 'c14_crc32_slicing_by_8_state1', 'c14_crc32_slicing_by_8_state0', 'c14_crc32', 'c14_crc32_update',
+                 'c14_crc32_bounded_len00_off0', 'c14_crc32_bounded_len01_off7'] +
+                ['c14_crc32_lemma_lin%d' % k for k in range(8)] + ['c14_crc32_lemma_slide%d' % k for k in range(8)])
+for j in JOBS:
+    j['wip'] = j['name'] not in VALIDATED
+    if j['wip'] and not j.get('note'):
+        j['note'] = 'not run on the unchanged tree yet / not validated on a broken copy'
